@@ -1,5 +1,7 @@
 """C02 - leaving a scope restores the surrounding context on every exit path."""
-from harness.legs import cfg_text, leg_m, leg_mutant, leg_r
+import random
+
+from harness.legs import cfg_text, gen_traces, leg_m, leg_mutant, leg_r, leg_t_gen
 from props.scopelife_common import ScopeLifeDriver
 from props.scopelife_common import replay as _replay_life
 
@@ -58,6 +60,11 @@ def run(rep, work, tier, seed):
     leg_m(rep, work, "Scopes", f"scopes_mc_{tier}", cfg_text(sc, spec="Spec", invariants=["TypeOK", "LexicalLookup"],
                                                               properties=["Restored"]), expect_actions=["Try", "Raise", "Leave"])
     leg_r(rep, work, "Scopes", f"scopes_conf_{tier}", cfg_text(sc, invariants=["TypeOK"]), lambda: ScopesDriver(("A", "B")), world=True)
+    # leg T: 4 disposables / 3 spawned tasks, random environment moves among those the real scope offers
+    from props.scopelife_common import TRACE_KW as LIFE_KW, gen_trace as life_trace
+    rnd = random.Random(seed * 43 + 7)
+    traces = gen_traces(rep, lambda: life_trace(rnd), 200 if tier == "quick" else 3000)
+    leg_t_gen(rep, work, "ScopeLife", f"trace_{tier}", traces, **LIFE_KW)
     rep.assumptions += [
         "spawned tasks obey cancellation at once; they end or fail only while the parent is in its body or waiting for them",
         "one external cancellation per run; a cancellation that arrives while asyncio's TaskGroup is already aborting "
